@@ -58,6 +58,11 @@ def er_facts(F, S):
                 d = d[1]
             good = good and d == cf(0.0) and len(layers) > n0
         post_b = r["heap"].get("self." + buf)
+        # the window holds the raw inputs: exactly one store per call, of the input itself, at the write cursor
+        if post_b == ("store", pb, ("pre", "self." + cur), x):
+            S.ok("O4", "ER window: one store of the raw input at the write cursor per call")
+        else:
+            S.bad("O4", "er-window", fn.label, "%s leaves the window as %s; the formula is over the raw inputs: exactly store(window, cursor, input)" % (fn.label, show(post_b)[:160]), "%s:%s" % (fn.span["file"], fn.span["line"]))
         for lay in layers:
             inc = lay[2]
             if not (isinstance(inc, tuple) and inc[0] == "abs" and isinstance(inc[1], tuple) and inc[1][0] == "-"):
